@@ -67,6 +67,16 @@ Theorem C08_raw_eq_hash :
 Proof. exact raw_eq_hash. Qed.
 Print Assumptions C08_raw_eq_hash.
 
+(* The executable statement of the property over operations and observations (multiset of
+   subscriptions, relevance by its meaning) never objects to the model, on every history whose
+   subscribed data is known to the hash oracle table:
+     851 IsRelevant does not say what the filter means    852 subscriptions are not the multiset sum / difference *)
+Theorem C08_monitor_silent :
+  forall (htbl : list (bytes * bytes)) (ctbl : list bytes) (ops : list op),
+    keys20 htbl ops = true -> c08_monitor htbl ctbl ops (run htbl ctbl ops) = None.
+Proof. exact c08_monitor_silent. Qed.
+Print Assumptions C08_monitor_silent.
+
 (* Non-vacuity *)
 Example C08_example_items : list item :=
   [ItOp 118; ItOp 169; ItDirect [1; 2; 3]; ItPushData 2 [7; 7]; ItZero; ItNum 5; ItOp 172; ItPushData 4 []].
